@@ -25,7 +25,7 @@ RULE = (
     "(line-up, cut labelling)."
 )
 ASSUMPTIONS = ["cheap sampler classes only (order, not numerics, is at stake)", "the RL scheduler cannot be checkpointed (known finding under C04): RL runs use no restore"]
-REQUIRED_COUNTERS = {"rr_batches": 400, "rr_runs": 80, "rr_restores": 40, "rl_batches": 100, "rl_sessions": 30, "ctor_combinations": 8}
+REQUIRED_COUNTERS = {"rr_batches": 400, "rr_runs": 80, "rr_restores": 40, "rl_batches": 60, "rl_sessions": 25, "ctor_combinations": 8}
 SHARDS = {"quick": 16, "thorough": 16}
 SHARD_WATCHDOG = {"quick": 900, "thorough": 5400}
 
@@ -33,7 +33,7 @@ SHARD_WATCHDOG = {"quick": 900, "thorough": 5400}
 def gen_cases(tier, seed):
     k = 1 if tier == "quick" else 12
     cases = [{"kind": "rr", "i": i, "seed": seed} for i in range(40 * k)]
-    cases += [{"kind": "rl", "i": i, "seed": seed} for i in range(24 * k)]
+    cases += [{"kind": "rl", "i": i, "seed": seed} for i in range(40 * k)]
     cases += [{"kind": "ctor", "i": i, "seed": seed} for i in range(2)]
     return cases
 
